@@ -39,7 +39,7 @@ SPEC = {
             '(blocked state read from the goroutine dump); the schedule, translated to model steps, is replayed by the model and '
             'delivered events (order), queue, parked sets and consumer state are compared; oracle: every arrived entry the '
             'announcement opens was delivered, exactly once per arrival, with its payload and sender; '
-            'non-trivial = at least one arrival and one registration; distinct = scenario x schedule',
+            'non-trivial = at least one arrival and one registration; distinct = scenario x schedule; scripted scenarios: arrivals and the two halves of a registration (RegisterChainKey, flush) as ONE thread in a chosen order, so that an arrival (also of an undecryptable message) falls inside the registration window, 4 fixed + 40 (400) random scripts, 4 (12) schedules each',
     'trusted_base': [
         'Coq 8.16.1 kernel; vm_compute for evaluating the model on cases',
         'no axioms',
